@@ -1,7 +1,112 @@
-(** C07 — property theorems (statements only; proofs are in CfgState/Proofs.v). *)
-From stdpp Require Import gmap.
-From SV Require Import CfgState.Model CfgState.Gen.
+(** C07 — a rejected configuration command leaves no trace.
+    Property theorems (statements only; proofs are in CfgState/Proofs.v).
+    The model is [SV.CfgState.Model.dispatch]; [steps_of] are the step lists
+    regenerated from command/src/state.rs on every run (CfgState/Gen.v). *)
+From stdpp Require Import gmap strings.
+From Coq Require Import NArith.
+From SV Require Import CfgState.Model CfgState.Spec CfgState.Gen CfgState.GenSteps CfgState.Proofs.
+Open Scope N_scope.
 
-Theorem placeholder_gen_atomic :
-  atomic steps_http = true /\ atomic steps_https = true /\ atomic steps_tcp = true /\ atomic steps_udp = true.
-Proof. vm_compute. auto. Qed.
+(** General theorem on step lists: if every fallible step (flood-knob
+    validation, field validation, lookup) precedes every mutation, a run that
+    ends in an error leaves the listener as it was found (or never looked it up). *)
+Theorem atomic_steps :
+  forall st p found c u,
+    atomic st = true -> run_steps st p found None = (c, u) -> u <> UOk ->
+    c = None \/ c = found.
+Proof. intros st p found c u Hat. eapply atomic_err_untouched; eauto. Qed.
+
+(** ... and the lists generated from the current source satisfy the hypothesis;
+    the certificate handlers perform every fallible event before the first
+    mutation, except the two unreachable post-checks of replace_certificate. *)
+Theorem generated_steps_atomic :
+  (forall k, atomic (steps_of k) = true)
+  /\ events_atomic [] false events_add_certificate = true
+  /\ events_atomic ["lookup_bucket"; "postcheck"]%string false events_replace_certificate = true.
+Proof. split; [intros []; vm_compute; reflexivity|split; vm_compute; reflexivity]. Qed.
+
+(** C07, first half: in every state reachable by any history of commands, for
+    every command (all verbs, any mixture of valid and invalid fields) and every
+    behaviour of the certificate parser and validators, an error answer means
+    the configuration is exactly what it was. *)
+Theorem err_is_noop :
+  forall fingerprint inames hc_valid s r s' e,
+    reachable fingerprint inames hc_valid steps_of s ->
+    dispatch fingerprint inames hc_valid steps_of s r = (s', Err e) ->
+    s' = s.
+Proof.
+  intros fp nm hc s r s' e Hr H.
+  eapply err_is_noop_reachable; [|exact Hr|exact H].
+  apply generated_steps_atomic.
+Qed.
+
+(** the same for any patch handlers whose step lists are atomic (what a future
+    version of update_*_listener must satisfy) *)
+Theorem err_is_noop_any_atomic_steps :
+  forall fingerprint inames hc_valid steps s r s' e,
+    (forall k, atomic (steps k) = true) ->
+    Inv s ->
+    dispatch fingerprint inames hc_valid steps s r = (s', Err e) -> s' = s.
+Proof. intros. eapply Proofs.err_is_noop; eauto. Qed.
+
+(** the invariant used: holds initially and is kept by every command, accepted or not *)
+Theorem invariant_inductive :
+  forall fingerprint inames hc_valid steps s r,
+    Inv empty_state /\ (Inv s -> Inv (fst (dispatch fingerprint inames hc_valid steps s r))).
+Proof. intros. split; [apply Inv_empty|apply Inv_dispatch]. Qed.
+
+(** C07, second half: a command — accepted or rejected — changes at most the
+    map entry it names; every other cluster, bucket, listener, frontend and
+    certificate bucket is the same before and after. *)
+Theorem ok_frame :
+  forall fingerprint inames hc_valid steps s r s' x,
+    dispatch fingerprint inames hc_valid steps s r = (s', x) ->
+    frame (target_of r) s s'.
+Proof. intros. eapply dispatch_frame; eauto. Qed.
+
+(** per verb: what an accepted command leaves at the entry it names *)
+Theorem ok_named_entry :
+  forall fingerprint inames hc_valid steps s s',
+    let d := dispatch fingerprint inames hc_valid steps in
+    (forall i c, d s (RAddCluster i c) = (s', Ok) -> clusters s' !! i = Some c)
+    /\ (forall i, d s (RRemoveCluster i) = (s', Ok) -> clusters s' !! i = None /\ is_Some (clusters s !! i))
+    /\ (forall k a l, d s (RAddListener k a l) = (s', Ok) -> get_l k s' !! a = Some l /\ get_l k s !! a = None)
+    /\ (forall p a k, kind_of p = Some k -> d s (RRemoveListener p a) = (s', Ok) -> get_l k s' !! a = None)
+    /\ (forall p a k (v : bool), kind_of p = Some k -> d s (if v then RActivate p a else RDeactivate p a) = (s', Ok) ->
+          exists l, get_l k s !! a = Some l /\ get_l k s' !! a = Some (Listener v (l_fields l) (l_rest l)))
+    /\ (forall tls f, d s (RAddFront tls f) = (s', Ok) -> get_f tls s' !! front_key f = Some f /\ get_f tls s !! front_key f = None)
+    /\ (forall tls f, d s (RRemoveFront tls f) = (s', Ok) -> get_f tls s' !! front_key f = None)
+    /\ (forall c b, d s (RAddBackend c b) = (s', Ok) -> exists l, backends s' !! c = Some l /\ isort bk_le l = l /\ In b l).
+Proof.
+  intros fp nm hc st s s' d. unfold d. repeat split.
+  - intros. eapply ok_add_cluster; eauto.
+  - eapply ok_remove_cluster; eauto.
+  - eapply ok_remove_cluster; eauto.
+  - eapply ok_add_listener; eauto.
+  - eapply ok_add_listener; eauto.
+  - intros. eapply ok_remove_listener; eauto.
+  - intros. eapply ok_set_active; eauto.
+  - eapply ok_add_front; eauto.
+  - eapply ok_add_front; eauto.
+  - intros. eapply ok_remove_front; eauto.
+  - intros. eapply ok_add_backend; eauto.
+Qed.
+
+(** non-vacuity: a reachable, non-empty state in which a listener patch with
+    good fields and one bad validated field is rejected *)
+Example err_is_noop_nonvacuous :
+  let fp := fun _ : N => @None N in
+  let nm := fun _ : N => @None (list N) in
+  let hc := fun _ : N => true in
+  let l := Listener false (<["front_timeout"%string := 60]> ∅) 0 in
+  let s := fst (dispatch fp nm hc steps_of empty_state (RAddListener LHttp 0 l)) in
+  reachable fp nm hc steps_of s
+  /\ s <> empty_state
+  /\ dispatch fp nm hc steps_of s
+       (RUpdateListener LHttp 0 [("front_timeout"%string, (7, true)); ("sozu_id_header"%string, (0, false))])
+     = (s, Err EInvalidValue).
+Proof.
+  cbv zeta. split; [apply reach_step, reach_empty|]. split.
+  - intros H. apply (f_equal (fun s => http_l s !! 0)) in H. vm_compute in H. discriminate.
+  - vm_compute. reflexivity.
+Qed.
